@@ -256,8 +256,9 @@ theorem compile_bytes_correct_partial (P : Prog) (hall : ∀ d ∈ P, Allowed []
   obtain ⟨m, _, hm⟩ := asm_halt_sim _ hl n _ _ hr
   exact ⟨fposAt (compProg P) pc0, m, labelOffset_of_findLabel _ _ _ hf, by simpa [mapS, compile] using hm⟩
 
-/-- … and so is the offset the debug info / manifest lists for the method (`debugOffset`, which is `labelOffset`
-    unless the method is the single-instruction case that debug.go drops). -/
+/-- … and so is the offset the debug info / manifest lists for the method (`debugOffset` = `labelOffset`: every
+    compiled function is listed, also one whose code is a single instruction — the former known finding
+    debug-single-instr-method, repaired in /repo). -/
 theorem manifest_offset_correct_partial (P : Prog) (hall : ∀ d ∈ P, Allowed [] d.body)
     (hl : layoutOK (compProg P) = true)
     (f : String) (vs rest : List Val) (v : Val) (fuel off : Nat)
@@ -268,8 +269,7 @@ theorem manifest_offset_correct_partial (P : Prog) (hall : ∀ d ∈ P, Allowed 
   have : off = off' := by
     unfold debugOffset at hoff
     rw [ho] at hoff
-    simp only [] at hoff
-    split at hoff <;> split at hoff <;> first | (cases hoff; done) | (cases hoff; rfl)
+    cases hoff; rfl
   exact ⟨m, this ▸ hm⟩
 
 /-! non-vacuity: the layout condition holds for the compiled example program (kernel evaluation of the assembler and
@@ -628,17 +628,15 @@ example : ∃ off m, labelOffset (compProg exTwo) (fnLabel exTwo "g") = some off
   simpa using compile_bytes_correct_accepted exTwo exTwo_allowed (fun d hd => (exTwo_small d hd).2.2) (by decide) "g" [.int 17, .int 0] [] (.int (-1)) 50 (by rfl) (by decide)
 end example_two
 
-/-- (1a) `var x T = e`: when `x` does not occur in `e`, the statement compiles to exactly the code and compile-time
-    state of `x := e` and has the same Go semantics — the early allocation of the local (codegen.go:738-764) is
-    invisible.  This is the precise carve-out of the known finding var-decl-shadow-self: `Allowed` (the hypothesis of
-    all statement / program theorems) admits `var x T = e` iff `mentions x e = false`, shadowing of an outer `x`
-    included; `varDecl_shadow_witness` below shows that the condition cannot be dropped. -/
-theorem varDecl_as_define (cx : Ctx) (lp : LoopCtx) (x : String) (b : Bool) (e : Expr) (st : St) (fuel : Nat) (P : Prog) (env : Env)
-    (h : mentions x e = false) :
+/-- (1a) `var x T = e` compiles to exactly the code and compile-time state of `x := e` and has the same Go semantics:
+    the initialiser is evaluated in the OUTER scope (Go: the scope of `x` begins after its ValueSpec; the compiler
+    allocates the local after walking the initialiser — the former known finding var-decl-shadow-self, repaired in
+    /repo), also when `x` occurs in `e`.  `Allowed` admits every `var` declaration. -/
+theorem varDecl_as_define (cx : Ctx) (lp : LoopCtx) (x : String) (b : Bool) (e : Expr) (st : St) (fuel : Nat) (P : Prog) (env : Env) :
     compS cx lp (.varDecl x b (some e)) st = compS cx lp (.define x e) st ∧
     exec fuel P env (.varDecl x b (some e)) = exec fuel P env (.define x e) ∧
     (∀ il, Allowed il (.varDecl x b (some e))) :=
-  ⟨compS_varDecl_define cx lp x b e st h, exec_varDecl_define fuel P env x b e, fun _ => h⟩
+  ⟨compS_varDecl_define cx lp x b e st, exec_varDecl_define fuel P env x b e, fun _ => trivial⟩
 
 /-! non-vacuity: a `var` declaration that shadows the argument `x` without reading it in its own initialiser
       func f(x int) int { r := 0; { var y int = x + 1; var x int = y * 2; r = x }; return r + x }     f(3) = 11 -/
@@ -654,7 +652,7 @@ theorem shadowOK_allowed : ∀ d ∈ [shadowOK], Allowed [] d.body := by
   intro d hd
   simp only [List.mem_cons, List.mem_nil_iff, or_false] at hd
   subst hd
-  simp [shadowOK, Allowed, mentions]
+  simp [shadowOK, Allowed]
 
 example : callF 20 [shadowOK] "f" [.int 3] = .ok (.int 11) := by rfl
 theorem shadowOK_layout : layoutOK (compProg [shadowOK]) = true := by decide
@@ -684,9 +682,9 @@ example : evalE 10 [] ovEnv (.bin .add (.var "a") (.lit 5)) = .ok (.int (2 ^ 62 
 example : evalW ovEnv (.bin .add (.var "a") (.lit 5)) = some (.int (2 ^ 62 + 5)) :=
   no_overflow_is_go [] ovEnv 10 _ _ (by simp [NoCall]) (by rfl)
 
-/-- The excluded case is a real difference between the compiler (as modelled, codegen.go:738-764) and Go:
-    `func f(x int) int { r := 0; { var x int = x + 1; r = x }; return r + x }` returns 2x+1 in Go, while the
-    compiled code reads the freshly allocated, still Null slot of the new x and FAULTs. -/
+/-- the self-referring declaration, formerly excluded (the compiled code read the fresh Null slot and FAULTed):
+    `func f(x int) int { r := 0; { var x int = x + 1; r = x }; return r + x }` returns 2x+1 in Go and in the compiled
+    script — `x + 1` reads the outer x. -/
 def shadowD : FuncDecl :=
   { name := "f", params := ["x"], nres := 1,
     body := .seq (.define "r" (.lit 0))
@@ -694,9 +692,16 @@ def shadowD : FuncDecl :=
                     (.seq (.assign "r" (.var "x")) .skip)))
       (.seq (.ret (some (.bin .add (.var "r") (.var "x")))) .skip)) }
 
-theorem varDecl_shadow_witness :
+theorem varDecl_self_reference :
     runFunc 20 [shadowD] "f" [.int 3] = .ok [.int 7] ∧
-    (∃ n, Asm.run (compProg [shadowD]) n { pc := 0, stack := [.int 3], locals := [], args := [], frames := [] } = .fault) := by
-  refine ⟨by rfl, 12, by rfl⟩
+    (∃ off m, labelOffset (compProg [shadowD]) (fnLabel [shadowD] "f") = some off ∧
+      Byte.run (compile [shadowD]) m { pc := off, stack := [.int 3], locals := [], args := [], frames := [] } = .halt [.int 7]) := by
+  refine ⟨by rfl, ?_⟩
+  have hall : ∀ d ∈ [shadowD], Allowed [] d.body := by
+    intro d hd
+    simp only [List.mem_cons, List.mem_nil_iff, or_false] at hd
+    subst hd
+    simp [shadowD, Allowed]
+  simpa using compile_bytes_correct_partial [shadowD] hall (by decide) "f" [.int 3] [] (.int 7) 20 (by rfl) (by decide)
 
 end NeoModel.C14
